@@ -2,6 +2,8 @@ import UtilModel.RefCount.Model
 /-!
 # refcount: algebra of the helper functions, the inductive invariant and its preservation
 -/
+set_option linter.unusedSimpArgs false
+set_option linter.unusedVariables false
 namespace UtilModel.RefCount
 open UtilModel
 
@@ -48,4 +50,99 @@ theorem shutdown_calls (s : St) (j : Nat) :
   unfold shutdown clearResolved
   cases hr : s.rcancel <;> cases hl : s.rel <;> cases hres : s.resolved <;>
     simp [hr, hl, hres, cancelCall_get, markReleased_get] <;>
-    cases s.calls[j]? <;> simp [updCall, hr, hl] <;> (repeat' split) <;> (try simp_all)
+    cases s.calls[j]? <;> simp [updCall, hr, hl] <;> (repeat' split) <;>
+    (try simp_all) <;> (try (simp [beq_false_of_ne, *]))
+
+@[simp] theorem shutdown_nonce (s : St) : (shutdown s).nonce = s.nonce + 1 := by
+  unfold shutdown clearResolved
+  cases s.rcancel <;> cases s.rel <;> cases hres : s.resolved <;> simp [hres]
+
+@[simp] theorem shutdown_resolved (s : St) : (shutdown s).resolved = false := by
+  unfold shutdown clearResolved
+  cases s.rcancel <;> cases s.rel <;> cases hres : s.resolved <;> simp [hres]
+
+@[simp] theorem shutdown_cur (s : St) : (shutdown s).cur = none := by
+  unfold shutdown clearResolved
+  cases s.rcancel <;> cases s.rel <;> cases hres : s.resolved <;> simp [hres]
+
+@[simp] theorem shutdown_rel (s : St) : (shutdown s).rel = none := by
+  unfold shutdown clearResolved
+  cases s.rcancel <;> cases s.rel <;> cases hres : s.resolved <;> simp [hres]
+
+@[simp] theorem shutdown_rcancel (s : St) : (shutdown s).rcancel = none := by
+  unfold shutdown clearResolved
+  cases s.rcancel <;> cases s.rel <;> cases hres : s.resolved <;> simp [hres]
+
+@[simp] theorem shutdown_value (s : St) : (shutdown s).value = if s.resolved then 0 else s.value := by
+  unfold shutdown clearResolved
+  cases s.rcancel <;> cases s.rel <;> cases hres : s.resolved <;> simp [hres]
+
+@[simp] theorem shutdown_verr (s : St) : (shutdown s).verr = if s.resolved then 0 else s.verr := by
+  unfold shutdown clearResolved
+  cases s.rcancel <;> cases s.rel <;> cases hres : s.resolved <;> simp [hres]
+
+@[simp] theorem shutdown_ctx (s : St) : (shutdown s).ctx = s.ctx := by
+  unfold shutdown clearResolved
+  cases s.rcancel <;> cases s.rel <;> cases hres : s.resolved <;> simp [hres]
+
+@[simp] theorem shutdown_keep (s : St) : (shutdown s).keep = s.keep := by
+  unfold shutdown clearResolved
+  cases s.rcancel <;> cases s.rel <;> cases hres : s.resolved <;> simp [hres]
+
+@[simp] theorem shutdown_tgt (s : St) : (shutdown s).tgt = s.tgt := by
+  unfold shutdown clearResolved
+  cases s.rcancel <;> cases s.rel <;> cases hres : s.resolved <;> simp [hres]
+
+@[simp] theorem shutdown_dead (s : St) : (shutdown s).dead = s.dead := by
+  unfold shutdown clearResolved
+  cases s.rcancel <;> cases s.rel <;> cases hres : s.resolved <;> simp [hres]
+
+@[simp] theorem shutdown_waitCh (s : St) : (shutdown s).waitCh = s.waitCh := by
+  unfold shutdown clearResolved
+  cases s.rcancel <;> cases s.rel <;> cases hres : s.resolved <;> simp [hres]
+
+@[simp] theorem shutdown_ninv (s : St) : (shutdown s).ninv = s.ninv := by
+  unfold shutdown clearResolved
+  cases s.rcancel <;> cases s.rel <;> cases hres : s.resolved <;> simp [hres]
+
+@[simp] theorem shutdown_relRuns (s : St) : (shutdown s).relRuns = s.relRuns := by
+  unfold shutdown clearResolved
+  cases s.rcancel <;> cases s.rel <;> cases hres : s.resolved <;> simp [hres]
+
+@[simp] theorem shutdown_owner (s : St) : (shutdown s).owner = s.owner := by
+  unfold shutdown clearResolved
+  cases s.rcancel <;> cases s.rel <;> cases hres : s.resolved <;> simp [hres]
+
+@[simp] theorem shutdown_cfgd (s : St) : (shutdown s).cfgd = s.cfgd := by
+  unfold shutdown clearResolved
+  cases s.rcancel <;> cases s.rel <;> cases hres : s.resolved <;> simp [hres]
+
+@[simp] theorem shutdown_panic (s : St) : (shutdown s).panic = s.panic := by
+  unfold shutdown clearResolved
+  cases s.rcancel <;> cases s.rel <;> cases hres : s.resolved <;> simp [hres]
+
+@[simp] theorem shutdown_th (s : St) : (shutdown s).th = if s.resolved then tellAll s.th none else s.th := by
+  unfold shutdown clearResolved
+  cases s.rcancel <;> cases s.rel <;> cases hres : s.resolved <;> simp [hres]
+
+@[simp] theorem shutdown_target (s : St) : (shutdown s).target = if s.resolved ∧ s.value ≠ 0 ∧ s.tgt then 0 else s.target := by
+  unfold shutdown clearResolved
+  cases s.rcancel <;> cases s.rel <;> cases hres : s.resolved <;> simp [hres]
+
+@[simp] theorem shutdown_targetErr (s : St) : (shutdown s).targetErr = if s.resolved ∧ s.verr ≠ 0 ∧ s.tgt then 0 else s.targetErr := by
+  unfold shutdown clearResolved
+  cases s.rcancel <;> cases s.rel <;> cases hres : s.resolved <;> simp [hres]
+
+theorem shutdown_calls_length (s : St) : (shutdown s).calls.length = s.calls.length := by
+  unfold shutdown clearResolved cancelCall markReleased
+  cases s.rcancel <;> cases s.rel <;> cases hres : s.resolved <;> simp [hres] <;>
+    (repeat' split) <;> simp
+
+theorem shutdown_pend (s : St) : (shutdown s).pend =
+    addBatch (if s.resolved then addBatch s.pend (cbItems s.th false 0 0) else s.pend)
+      (match s.rel with
+       | some i => [.rel i (invOf (shutdown s).calls i) (shutdown s).target]
+       | none => []) := by
+  sorry
+
+end UtilModel.RefCount
